@@ -30,6 +30,7 @@ def declare(rep):
     rep.rule("C19.stats-schedule", "statistics every 50th iteration and once after the loop; iteration_ incremented once per iteration", floor=3)
     rep.rule("C19.face-file-counts", "in the face-data file each declared count (CELLS, CELL_DATA, POINT_DATA, array lengths) is accumulated from the same kind of element (nodes / faces) that the emitting loop ranges over", floor=3)
     rep.rule("C19.writer-reentrant", "the two files of a pair are written by concurrent OpenMP sections: no function on their cone formats through a mutable function-local static buffer (the files would contain each other's numbers)", floor=1)
+    rep.rule("C19.rows-reach-file", "the statistics rows written by a call of write_data are in the file when the call returns: the std::ofstream they are streamed to is a local (closed when it goes out of scope) or is flushed / closed before the function returns", floor=1)
     rep.rule("C19.file-number", "file number = floor(t/S)+1, written only on change, both paths from the same stored number, current population", floor=3)
 
 
@@ -132,10 +133,45 @@ def writer_reentrant(rep, prog):
         rep.note("mesh_writer has no parallel region: the files of a pair are written one after the other") if hasattr(rep, "note") else None
 
 
+def rows_reach_file(rep, prog):
+    from .. import emit
+    fn = prog.fn("csv_file_statistics_writer::write_data")
+    fi = prog.index(fn)
+    sinks = []
+    for n in walk(fn["body"]):
+        if n.get("k") == "CXXOperatorCallExpr" and n.get("op") == "<<" and len(n.get("c", [])) == 3:
+            l = emit._peel(n["c"][1])
+            if "ofstream" in (l.get("t") or "") and l.get("k") in ("DeclRefExpr", "MemberExpr"):
+                sinks.append((n, l))
+    if not sinks:
+        raise AnalysisBroken("csv_file_statistics_writer::write_data: no emission to a std::ofstream found")
+    seen = set()
+    for n, l in sinks:
+        key = render(l)
+        if key in seen:
+            continue
+        seen.add(key)
+        if l.get("k") == "DeclRefExpr" and (l.get("ref") or {}).get("dk") == "Var":
+            decl = [v for v in walk(fn["body"]) if v.get("k") == "Var" and v.get("did") == l["ref"].get("did")]
+            if decl and not decl[0].get("static_local") and not (decl[0].get("t") or "").rstrip().endswith("&"):
+                rep.ok("C19.rows-reach-file", prog, fn, n, "rows go to the local std::ofstream '%s', closed when write_data returns" % l["ref"].get("name"))
+                continue
+        last = max(fi.order[id(x)] for x, l2 in sinks if render(l2) == key)
+        done = [c for c in walk(fn["body"]) if c.get("k") == "CXXMemberCallExpr" and c.get("callee", "").split("::")[-1] in ("flush", "close") and render(call_obj(c) or {}) == key and fi.order[id(c)] > last
+                and fi.enclosing(c, ("IfStmt", "ForStmt", "WhileStmt", "CXXForRangeStmt")) is None]
+        endl = [x for x in walk(fn["body"]) if x.get("k") == "DeclRefExpr" and (x.get("ref") or {}).get("name") in ("endl", "flush") and fi.order[id(x)] >= last - 50]
+        if done or endl:
+            rep.ok("C19.rows-reach-file", prog, fn, n, "rows go to '%s', flushed / closed before write_data returns" % key)
+        else:
+            rep.violation("C19.rows-reach-file", prog, fn, n, "rows stay in the buffer of %s" % key,
+                          "csv_file_statistics_writer::write_data streams the rows to '%s', which outlives the call, and neither flushes nor closes it: when solver::run returns the statistics file on disk is empty or cut at a buffer boundary until the writer is destroyed (and stays so if the process ends without running the destructor)" % key)
+
+
 def run(rep, prog, tier):
     if not rep.rules:
         declare(rep)
     writer_reentrant(rep, prog)
+    rows_reach_file(rep, prog)
     shapes = {}
     for cls in ("csv_file_statistics_writer", "string_statistics_writer"):
         ctor, wd, H, R, cell_loop = writer_shape(prog, cls)
